@@ -256,11 +256,16 @@ namespace {
         }
     };
 
-    std::string per_page(std::vector<std::string> const& a, std::function<std::string(PgDoc&, QPDFObjectHandle&)> f) {
-        PgDoc d(a.at(0), a.at(1));
+    // fresh: a new document for every page (for operations that change objects other pages may share)
+    std::string per_page(std::vector<std::string> const& a, std::function<std::string(PgDoc&, QPDFObjectHandle&)> f, bool fresh = false) {
+        auto d0 = std::make_unique<PgDoc>(a.at(0), a.at(1));
         std::string out;
-        if (d.setup_warns != "-") return "setup-warnings " + d.setup_warns;
-        for (auto& pg: d.pages) {
+        if (d0->setup_warns != "-") return "setup-warnings " + d0->setup_warns;
+        size_t npages = d0->pages.size();
+        for (size_t pi = 0; pi < npages; ++pi) {
+            if (fresh && pi > 0) d0 = std::make_unique<PgDoc>(a.at(0), a.at(1));
+            PgDoc& d = *d0;
+            auto& pg = d.pages.at(pi);
             std::string r;
             try {
                 r = f(d, pg);
@@ -350,7 +355,7 @@ static Reg r_c16pgaddtf("c16pgaddtf", [](std::vector<std::string> const& a) -> s
         Pl_Buffer buf("out");
         c.pipeStreamData(&buf, 0, qpdf_dl_generalized);
         return hex_or_dash(buf_string(buf));
-    });
+    }, true);      // the filter is attached to the stream object itself when /Contents is a single stream
 });
 
 // c16pgparse: parsePageContents: the size of the content the parser is given
